@@ -305,6 +305,8 @@ def main(tier):
         "input_distribution": stats, "strict_order": STRICT_ORDER, "disagreements_checked": len(ck.violations),
     })
     ck.trusted += ["Coq 8.16.1 kernel", "data-race freedom is tested with the Go race detector, not proved (Go memory model and scheduler not modelled)",
+                   "failing-analyses stage: the failure modes are those reachable from the `pyscn analyze` command line (dead code and the dependency analysis have none); the MCP "
+                   "server is not built with -race; GORACE=atexit_sleep_ms=20 there (the default sleeps 1 s at every successful exit); a race shows only if the detector observes it in one of the repetitions",
                    "MCP side: the real cmd/pyscn-mcp binary driven over stdio JSON-RPC (initialize + tools/call); the in-process hook (op mcp) only for analyze_code",
                    "call histories are sampled (all ordered pairs of targets per tool, all ordered pairs of tools), not all sequences; the calls of a history are sequential (concurrent calls on one server are not compared)",
                    "MCP vs CLI equality is decided on projected findings (rows, pairs, scores), not on the presentation (field names, order, wording)",
